@@ -13,6 +13,8 @@
  *   mute      (tls-based) the TCP peer accepts but never speaks TLS; later it closes
  *   garbage   (tls-based) the TCP peer answers the ClientHello with garbage
  *   idle      server socket with nobody connecting: accept reports EAGAIN, the descriptor stays quiet
+ *   garbage2  (tls-based) as normal; then, in the same process, a second connection attempt to a peer that answers the
+ *             ClientHello with garbage fails - the healthy connection must be unaffected by it
  *   ctlflood  as normal, with the control interface enabled and a control client that sends requests to the
  *             connecting side's control socket and never reads the replies, while the applications keep calling
  *
@@ -352,7 +354,8 @@ static void run(void)
 	setenv("XCM_CTL", ctldir, 1);
     } else
 	setenv("XCM_CTL", "/nonexistent-verif", 1);
-    bool normal = strcmp(scen, "normal") == 0 || ctlflood, refused = strcmp(scen, "refused") == 0,
+    bool garbage2 = strcmp(scen, "garbage2") == 0;
+    bool normal = strcmp(scen, "normal") == 0 || ctlflood || garbage2, refused = strcmp(scen, "refused") == 0,
 	 silent = strcmp(scen, "silent") == 0, release = strcmp(scen, "release") == 0,
 	 mute = strcmp(scen, "mute") == 0, garbage = strcmp(scen, "garbage") == 0, idle = strcmp(scen, "idle") == 0;
     int up = 1;
@@ -605,6 +608,80 @@ static void run(void)
 		do_finish(e);
 	}
     }
+    /* garbage2: a second connection of this process is fed garbage instead of a TLS handshake; afterwards the healthy
+       connection must still say EAGAIN when idle, deliver what is sent and finish cleanly */
+    if (garbage2 && so[1] && so[2] && !stuck && !term[1] && !term[2]) {
+	char vaddr[300];
+	int vport = raw_listener(8, vaddr, sizeof(vaddr), proto);
+	struct xcm_attr_map *va = nb_attrs();
+	CALL_BEGIN(3);
+	struct xcm_socket *vict = vport > 0 ? xcm_connect_a(vaddr, va) : NULL;
+	int verr = errno;
+	CALL_END();
+	xcm_attr_map_destroy(va);
+	emit("vc", 3, vict ? 0 : -1, vict ? 0 : verr, 0, shim_wait_seen());
+	int vterm = 0;
+	for (int i = 0; i < 400 && vict && !vterm; i++) {
+	    if (rawc < 0) {
+		int c = accept(rawl, NULL, NULL);
+		if (c >= 0) {
+		    rawc = c;
+		    fcntl(rawc, F_SETFL, fcntl(rawc, F_GETFL) | O_NONBLOCK);
+		}
+	    }
+	    if (rawc >= 0 && !rgarb && poll1(rawc, POLLIN) > 0) {
+		unsigned char g[64];
+		for (size_t k = 0; k < sizeof(g); k++)
+		    g[k] = (unsigned char)rnd();
+		g[0] = 0x55;
+		if (write(rawc, g, 7) > 0 && write(rawc, g + 7, sizeof(g) - 7) > 0)
+		    rgarb = true;
+		emit("env", 0, 0, 0, 3, 0);
+	    }
+	    CALL_BEGIN(3);
+	    int rc = xcm_finish(vict);
+	    int e = errno;
+	    CALL_END();
+	    if (rc < 0 && e != EAGAIN)
+		vterm = e;
+	    if (rc == 0)
+		vterm = -1;	/* established on garbage?! */
+	    if (vterm || i % 20 == 0)
+		emit("vf", 3, rc, rc < 0 ? e : 0, 0, shim_wait_seen());
+	    if (!vterm)
+		usleep(2000);
+	}
+	/* the healthy connection, right after the attack (no handshake step in between) */
+	do_receive(1);
+	do_receive(2);
+	want_send[2] = sent[2] + 1;
+	do_send(2);
+	for (int i = 0; i < 200 && rcvd[1] < sent[2] && !term[1]; i++) {
+	    struct pollfd p = { .fd = xcm_fd(so[1]), .events = POLLIN };
+	    if (poll(&p, 1, 10) > 0)
+		do_receive(1);
+	    else
+		do_finish(2);
+	}
+	want_send[1] = sent[1] + 1;
+	do_send(1);
+	for (int i = 0; i < 200 && rcvd[2] < sent[1] && !term[2]; i++) {
+	    struct pollfd p = { .fd = xcm_fd(so[2]), .events = POLLIN };
+	    if (poll(&p, 1, 10) > 0)
+		do_receive(2);
+	    else
+		do_finish(1);
+	}
+	do_finish(1);
+	do_finish(2);
+	if (vict) {
+	    CALL_BEGIN(3);
+	    xcm_close(vict);
+	    CALL_END();
+	    emit("vx", 3, 0, 0, vterm, shim_wait_seen());
+	}
+    }
+
     /* orderly end of the normal scenario: 1 closes, 2 must see it */
     int close_seen = -1;
     if (normal && so[1] && so[2] && !stuck && !term[1] && !term[2]) {
